@@ -301,7 +301,7 @@ func (r *Report) Finish() int {
 	}
 
 	// samples: a few per rule
-	var samples []any
+	samples := []any{}
 	perRuleS := map[string]int{}
 	for _, o := range r.Obls {
 		lim := 3
